@@ -988,10 +988,10 @@ class Client():
 
         self.connector.tx(request)
 
-        if method is not None:
-            self.respondent.reinit(method=self.requester.method)
-        else:
-            self.respondent.reinit()  # reset code status reason
+        # respondent parses the response to the request just sent so it uses that
+        # request's method. Bare reinit would reset method to its default GET
+        # and a redirected HEAD request would then wait for a body forever
+        self.respondent.reinit(method=self.requester.method)
 
     def redirect(self):
         """
